@@ -12,9 +12,14 @@ package main
 
 import (
 	"bytes"
+	"encoding/hex"
+	"flag"
 	"fmt"
 	"io"
+	"os"
+	"os/exec"
 	"strings"
+	"time"
 
 	dawn "github.com/pgavlin/dawn"
 	"github.com/pgavlin/dawn/internal/verif/vlib"
@@ -191,7 +196,93 @@ def f(t, d=("dflt", 1.5)):
 	return out
 }
 
+var fTower = flag.String("tower", "", "internal: decode a shared-tuple tower (kind:levels) and exit")
+
+// towerInput builds a pickle of 6 bytes per level: t0 = (1, 1), t(i+1) = (ti, ti) with both
+// elements the SAME memoised tuple, and finally uses the top tuple as a dict key / set element /
+// plain value. The input is tiny and acyclic; the value it denotes is a DAG whose unfolding has
+// 2^levels leaves.
+func towerInput(kind string, levels int) []byte {
+	var b []byte
+	switch kind {
+	case "dictkey":
+		b = append(b, '}', '(')
+	case "setelem":
+		b = append(b, 0x8f, '(')
+	}
+	b = append(b, 'K', 1, 'K', 1, 0x86, 0x94)
+	for i := 0; i < levels; i++ {
+		b = append(b, 'h', byte(i), 'h', byte(i), 0x86, 0x94)
+	}
+	switch kind {
+	case "dictkey":
+		// the tuples of all levels are on the stack: they become keys and values alternately
+		if (levels+1)%2 == 1 {
+			b = append(b, 'K', 1)
+		}
+		b = append(b, 'u')
+	case "setelem":
+		b = append(b, 0x90)
+	}
+	return append(b, '.')
+}
+
+// towerFamily decodes towers in a child process under a hang guard: in-process a hang could not
+// be interrupted. Decoding takes microseconds when the decoder's work is bounded by the input
+// size; the guard is six orders of magnitude above that.
+func towerFamily(r *vlib.Run) {
+	type child struct {
+		kind   string
+		levels int
+		cmd    *exec.Cmd
+		done   chan struct{}
+	}
+	var cs []*child
+	for _, kind := range []string{"value", "dictkey", "setelem"} {
+		for _, levels := range []int{8, 16, 64} {
+			c := &child{kind: kind, levels: levels, cmd: exec.Command(os.Args[0], "-tower", fmt.Sprintf("%s:%d", kind, levels)), done: make(chan struct{})}
+			if err := c.cmd.Start(); err != nil {
+				vlib.Fatalf("tower child: %v", err)
+			}
+			go func() { c.cmd.Wait(); close(c.done) }()
+			cs = append(cs, c)
+			r.Add("tower_inputs", 1)
+		}
+	}
+	deadline := time.After(20 * time.Second) // one guard for all children, which run side by side
+	for _, c := range cs {
+		in := towerInput(c.kind, c.levels)
+		select {
+		case <-c.done:
+			if code := c.cmd.ProcessState.ExitCode(); code != 0 {
+				r.Violation("C15:decode-crash:shared-tuple-tower-"+c.kind, fmt.Sprintf("decoding a %d-level shared-tuple tower (%d bytes) as %s: the process died or returned nothing (exit %d)", c.levels, len(in), c.kind, code),
+					map[string]any{"kind": c.kind, "levels": c.levels, "input_hex": hex.EncodeToString(in)})
+			}
+		case <-deadline:
+			deadline = time.After(0)
+			c.cmd.Process.Kill()
+			<-c.done
+			r.Violation("C15:decode-hang:shared-tuple-tower-"+c.kind, fmt.Sprintf("decoding a %d-level shared-tuple tower (%d bytes) as %s did not return within 20 s (microseconds are expected; the work doubles with every 6 bytes of input)", c.levels, len(in), c.kind),
+				map[string]any{"kind": c.kind, "levels": c.levels, "input_hex": hex.EncodeToString(in)})
+		}
+	}
+}
+
 func main() {
+	flag.Parse()
+	if *fTower != "" {
+		var kind string
+		var levels int
+		if i := strings.IndexByte(*fTower, ':'); i > 0 {
+			kind = (*fTower)[:i]
+			fmt.Sscan((*fTower)[i+1:], &levels)
+		}
+		v, err := pickle.NewDecoder(bytes.NewReader(towerInput(kind, levels)), nil).Decode()
+		if err == nil && v == nil {
+			os.Exit(7)
+		}
+		os.Exit(0)
+	}
 	r := vlib.Start("C15")
 	if r.IsWorker() {
 		recordFaults(r) // worker processes only serve the record-fault part
@@ -316,6 +407,7 @@ func main() {
 	r.Sample(map[string]any{"input_hex": "28292e", "meaning": "MARK EMPTY_TUPLE STOP"})
 	r.Sample(map[string]any{"valid_encoding": "function env f", "bytes": len(valid["function env f"])})
 
+	towerFamily(r)
 	recordFaults(r)
 
 	r.Assumptions = []string{
